@@ -161,9 +161,10 @@ def run(tier: str) -> int:
         # every admissible list of exactly five arguments over the reduced alphabet (FormsR)
         r5 = tlc("Gen_ArgViews", "Gen_ArgViews_5R.cfg", workers=1, timeout=3000)
         o.add_tlc("Gen_ArgViews[=5, reduced alphabet] laws+cases", r5)
-        res5 = pmap(chunk_fn, [(i, c["args"]) for i, c in enumerate(r5.cases)])
+        cases5 = r5.cases        # parsed once: the property re-reads TLC's whole output
+        res5 = pmap(chunk_fn, [(i, c["args"]) for i, c in enumerate(cases5)])
         for idx, v in res5:
-            judge(o, r5.cases[idx], v, "G5")
+            judge(o, cases5[idx], v, "G5")
             o.traces += 1
     o.exhaustive = True
     o.sample({"call": "{{T" + "".join("|" + text(a) for a in cases[len(cases) // 2]["args"]) + "}}", "map": {str(k): v for k, v in exp_map(cases[len(cases) // 2]["map"]).items()}})
